@@ -165,21 +165,21 @@ of1!(of1_two_flushes_time_sensitive, SendMode::TimeSensitive);
 // OF8: a retransmission that is due while the flush has no credit must stay queued and go out later (C09/C02).
 //@h props=C09,C02,C12,C13 tier=quick timeout=900 role=flush-resend-no-credit also_quick=C02 cbmc=--max-field-sensitivity-array-size+512
 //@fn HalfConnection::{send, emit_frames, emit_data_frames, is_send_pending}, DataFrameEmitter::{push, finalize}, ResendQueue
-//@bound small connection; ONE 1-byte Reliable packet; flush at t0 (ample credit), flush at any t1 >= t0 + 4 rtt with NEGATIVE credit (-1), flush at any t2 >= t1 with ample credit
+//@bound small connection; ONE 1-byte Reliable packet; flush at 1000 ms (ample credit, rtt 50 ms), flush at 1300 ms (retransmission due) with NEGATIVE credit (-1), flush at 1400 ms with ample credit; payload byte and CRC value any
 //@assume as of1_two_flushes_reliable
 #[kani::proof]
 #[kani::unwind(4)]
 #[kani::stub(crate::frame::serial::crc::compute, crate::frame::serial::verif_codec::crc_stub)]
 #[kani::stub(alloc::rc::is_dangling, not_dangling)]
 fn of8_due_resend_without_credit_stays_queued() {
-    let e = any_env();
+    unsafe { crate::frame::serial::verif_codec::CRC_STUB_VALUE = kani::any(); }
+    // concrete times (rtt 50 ms): whether the retransmission is due must not be a symbolic branch in the middle of the script
+    // (DESIGN.md 10.8); "no later than 4 RTT" for any times is decided by of1
+    let e = Env { rtt: 50, rto: 200 };
     let mut hc = small(TXP, 0, TXF, 0, None);
     let b: u8 = kani::any();
     hc.send(Box::new([b]), 1, SendMode::Reliable);
-    let t0 = any_time_from(0);
-    let t1 = any_time_from(t0);
-    kani::assume(t1 - t0 >= 4 * e.rtt);
-    let t2 = any_time_from(t1);
+    let (t0, t1, t2): (u64, u64, u64) = (1000, 1300, 1400);
     hc.sync_timeout_base_ms = t0;
     hc.flush_alloc = AMPLE;
     let mut w = Wire::new();
